@@ -75,7 +75,7 @@ const (
 	Small              // ≲ 200 bytes
 	Medium             // ≲ 4 KiB
 	Large              // 8 … 30 KiB
-	Huge               // 40 … 62 KiB
+	Huge               // 40 … 58 KiB
 )
 
 // Opts controls the generators.  The zero value is usable.
@@ -134,7 +134,7 @@ func (o Opts) target(r *rand.Rand) int {
 	case Large:
 		return 8000 + r.IntN(22000)
 	default:
-		return 40000 + r.IntN(22000)
+		return 40000 + r.IntN(18000)
 	}
 }
 
@@ -313,6 +313,8 @@ func smallSet(r *rand.Rand, o Opts) coverage.Set {
 // ClassDef returns a class definition table that uses the classes
 // 1..numClasses-1, each for at least one glyph (as far as the alphabet
 // permits), so that NumClasses() == numClasses.  Class 0 is never stored.
+// With o.Bytes > 0 about o.Bytes/6 glyphs are classified (the encoded size
+// stays below o.Bytes unless numClasses itself demands more).
 func ClassDef(r *rand.Rand, numClasses int, o Opts) classdef.Table {
 	t := classdef.Table{}
 	if numClasses <= 1 {
@@ -320,8 +322,15 @@ func ClassDef(r *rand.Rand, numClasses int, o Opts) classdef.Table {
 	}
 	k := numClasses - 1
 	n := k + r.IntN(3*k+4)
-	if r.IntN(4) == 0 {
-		n += o.target(r) / 4
+	switch {
+	case o.Bytes > 0:
+		// budget: at most 6 bytes per glyph (format 2, every glyph its own range)
+		n = max(k, o.Bytes/6)
+		if r.IntN(3) == 0 {
+			n = k + r.IntN(n-k+1)
+		}
+	case r.IntN(4) == 0:
+		n += r.IntN(300)
 	}
 	gids := GIDs(r, n, o.maxGID())
 	if len(gids) == 0 {
